@@ -4,6 +4,7 @@ package main
 
 import (
 	"fmt"
+	"strings"
 
 	"golang.org/x/tools/go/ssa"
 )
@@ -19,28 +20,41 @@ func (i *Interp) mapOrder(m *smap, fr *frame, in ssa.Instruction) []int {
 	if i.ex == nil || !i.ex.symOrder || len(o) < 2 {
 		return o
 	}
+	// only ranges executed by goflow / gocommon code are made arbitrary: the
+	// harness's own bookkeeping and the standard library are left alone
+	pk := ""
+	if fr.fn.Pkg != nil {
+		pk = fr.fn.Pkg.Pkg.Path()
+	} else if o := fr.fn.Origin(); o != nil && o.Pkg != nil {
+		pk = o.Pkg.Pkg.Path()
+	} else if par := fr.fn.Parent(); par != nil && par.Pkg != nil {
+		pk = par.Pkg.Pkg.Path()
+	}
+	name := strings.ToLower(fr.fn.String())
+	if !strings.HasPrefix(pk, "github.com/nyaruka/") || strings.Contains(name, "verif") {
+		return o
+	}
 	site := fr.pos(in)
 	i.mapRange[fmt.Sprintf("%s (n=%d)", site, len(o))]++
-	// symbolic permutation: fork over the permutations of up to 3 entries;
-	// larger maps take every rotation and the reversal.
-	if len(o) <= 3 {
-		perms := permutations(len(o))
-		p := perms[i.choice(len(perms))]
-		out := make([]int, len(o))
-		for k, j := range p {
-			out[k] = o[j]
-		}
-		return out
+	// arbitrary order: insertion order, its reversal, or (n ≥ 3) the rotation
+	// by one — three candidate orders per range (all n! would multiply across
+	// the ranges of one execution); the harness compares against a run in
+	// insertion order
+	n := 2
+	if len(o) >= 3 {
+		n = 3
 	}
-	k := i.choice(len(o) + 1)
-	if k == len(o) {
+	switch i.choice(n) {
+	case 1:
 		out := make([]int, len(o))
 		for a := range o {
 			out[a] = o[len(o)-1-a]
 		}
 		return out
+	case 2:
+		return append(append([]int{}, o[1:]...), o[0])
 	}
-	return append(append([]int{}, o[k:]...), o[:k]...)
+	return o
 }
 
 func permutations(n int) [][]int {
